@@ -101,6 +101,17 @@ HARNESSES.append(
          backends=["default", "kissat"],
          bound="one index node of 40 bytes (interior, 4 entries) / 56 bytes (root, 3 entries) [thorough: 48 / 64 bytes, 5 / 4 entries], every byte symbolic; directory of 4 / 3 [5 / 4] blocks, "
                "every prior fact of every block symbolic"))
+P5_UW = ["main.%d:130" % i for i in range(48)] + ["fix_problem.%d:18" % i for i in range(4)] + ["vf_bit.0:18", "vf_get_range.0:9",
+         "ext2fs_test_inode_bitmap_range.0:9", "vf_reset_record.0:18", "vf_reset_record.1:4", "ext2fs_bitcount.0:5", "ext2fs_bitcount.1:3", "ext2fs_bitcount.2:5"]
+HARNESSES.append(
+    dict(name="p5blocks", src="p5blocks.c", extra_src=["lib/ext2fs/blknum.c", "lib/ext2fs/bitops.c"],
+         funcs=["check_block_bitmaps", "print_bitmap_problem", "ext2fs_bg_free_blocks_count", "ext2fs_bg_flags_test", "ext2fs_free_blocks_count",
+                "ext2fs_blocks_count", "ext2fs_bitcount"],
+         configs=[{"ANSWER": 0, "NG": 2, "DSZ": 32, "FDB": 1, "LAST": 5, "DISCARD": None}, {"ANSWER": 0, "NG": 2, "DSZ": 32, "FDB": 0, "LAST": 2}],
+         unwind=4, unwindset=P5_UW + ["io_channel_discard.0:18", "check_block_bitmaps.0:18", "check_block_bitmaps.1:1", "check_block_bitmaps.2:4"],
+         backends=["default", "kissat"],
+         bound="2 groups of 8 blocks (the last 1..8 long), first data block 0/1, every bit of both bitmaps, every descriptor byte, "
+               "superblock count, ro_compat and fs->flags symbolic; e2fsck -n"))
 MANIFEST = {
     "text": "Kernel-level slice (partial). Detector completeness against an independent format predicate, bounded-exhaustive: every extent header "
             "violating (magic, entries <= max, max entries fit the node) is rejected by ext2fs_extent_header_verify for every node size; every "
